@@ -1,5 +1,114 @@
 // harness commands owned by the check of property C03 (see tools/props/C03.py)
+//
+// c03 <opts> <hex src>...
+//   Compiles every source with `yarel::compiler::compile` on ONE Vm (a fresh Vm costs far more than a
+//   compilation, above all in the debug build) and prints, per source,
+//     I <index>
+//     R ok <functions> <code bytes> | R err <Kind> + M <hex message>... | R panic <hex message>
+//   A panic inside one compilation is caught, reported, and the Vm is replaced.  opts: `-` or a
+//   comma-separated list of `run=1` (after an Ok compilation the source is also interpreted on a
+//   fresh Vm: `X ok|err <Kind>|panic <hex>`), `gc=default` (default here is gc=never: the property is
+//   about the compiler, and the stress collector of the debug build makes Vm::with_built_ins slow).
+//   The watchdog of the harness covers the whole line; the driver re-runs the sources of a line that
+//   timed out one by one with `compile`.
+use yarel::memory::verif as gcv;
+
+fn count_functions(f: yarel::memory::Gc<yarel::object::ObjFunction>, n: &mut usize, bytes: &mut usize) {
+    *n += 1;
+    *bytes += f.chunk.code.len();
+    for c in f.chunk.constants.iter() {
+        if let yarel::value::Value::ObjFunction(g) = c {
+            count_functions(*g, n, bytes);
+        }
+    }
+}
+
+fn cmd_c03(args: &[&str], out: &mut Vec<String>) {
+    let mut run = false;
+    let mut policy = gcv::Policy::Never;
+    for kv in args[0].split(',') {
+        match kv {
+            "run=1" => run = true,
+            "gc=default" => policy = gcv::Policy::Default,
+            _ => {}
+        }
+    }
+    gcv::set_policy(policy);
+    let mut vm = crate::new_vm();
+    for (i, a) in args[1..].iter().enumerate() {
+        out.push(format!("I {}", i));
+        let src = crate::unhex_str(a);
+        let src2 = src.clone();
+        let r = std::panic::catch_unwind(std::panic::AssertUnwindSafe(|| {
+            match yarel::compiler::compile(&mut vm, src, None) {
+                Ok(f) => {
+                    let (mut n, mut b) = (0usize, 0usize);
+                    count_functions(f.as_gc(), &mut n, &mut b);
+                    vec![format!("R ok {} {}", n, b)]
+                }
+                Err(e) => {
+                    let mut v = vec![format!("R err {}", crate::kind_name(e.kind()))];
+                    for m in e.messages() {
+                        v.push(format!("M {}", crate::hex(m.as_bytes())));
+                    }
+                    v
+                }
+            }
+        }));
+        let mut ok = false;
+        match r {
+            Ok(v) => {
+                ok = v[0].starts_with("R ok");
+                out.extend(v);
+            }
+            Err(p) => {
+                let msg = if let Some(s) = p.downcast_ref::<String>() {
+                    s.clone()
+                } else if let Some(s) = p.downcast_ref::<&str>() {
+                    (*s).to_owned()
+                } else {
+                    "panic".to_owned()
+                };
+                out.push(format!("R panic {}", crate::hex(msg.as_bytes())));
+                // the Vm may hold half-built compiler state: leak it and start afresh
+                let old = std::mem::replace(&mut vm, crate::new_vm());
+                std::mem::forget(old);
+            }
+        }
+        if run && ok {
+            let r = std::panic::catch_unwind(std::panic::AssertUnwindSafe(|| {
+                let mut vm2 = crate::new_vm();
+                let r = yarel::vm::interpret(&mut vm2, src2, None);
+                crate::OUTPUT.with(|o| o.borrow_mut().clear());
+                match r {
+                    Ok(_) => "X ok".to_owned(),
+                    Err(e) => format!("X err {}", crate::kind_name(e.kind())),
+                }
+            }));
+            match r {
+                Ok(s) => out.push(s),
+                Err(p) => {
+                    let msg = if let Some(s) = p.downcast_ref::<String>() {
+                        s.clone()
+                    } else if let Some(s) = p.downcast_ref::<&str>() {
+                        (*s).to_owned()
+                    } else {
+                        "panic".to_owned()
+                    };
+                    out.push(format!("X panic {}", crate::hex(msg.as_bytes())));
+                }
+            }
+        }
+    }
+}
+
 #[allow(unused_variables)]
 pub fn dispatch(cmd: &str, args: &[&str], out: &mut Vec<String>) -> bool {
-    false
+    match cmd {
+        "c03" => {
+            cmd_c03(args, out);
+            true
+        }
+        _ => false,
+    }
 }
